@@ -322,5 +322,24 @@ pub proof fn lemma_mayberef_write_read_write<T: Object + ObjectWrite>(m: MaybeRe
     ensures
         r matches Ok(m2) ==> maybe_writes(m2) == maybe_writes(m),
 {}
+/// Vec: the array written for `x` (element k = x[k].writes()) reads back as `x`, element by element, given T's own round trip.
+/// One-or-many: a one-element vector is written as a one-element ARRAY (never as the bare element), an empty one as `[]`.
+pub proof fn lemma_vec_write_read<T: Object + ObjectWrite>(x: Seq<T>, v: Vec<Primitive>, st: Store, r: Result<Vec<T>>)
+    requires
+        v@.len() == x.len(),
+        forall|k: int| 0 <= k < x.len() ==> #[trigger] v@[k] == x[k].writes() && T::reads(x[k].writes(), st) == Ok::<T, PdfError>(x[k]),
+        vec_reads::<T>(Primitive::Array(v), st, r),
+    ensures
+        r matches Ok(out) && out@ == x,
+{
+    assert(elems(Primitive::Array(v)) == v@);
+    assert(forall|i: int| 0 <= i < v@.len() ==> T::reads(#[trigger] v@[i], st) is Ok);
+    assert(r is Ok);
+    let out = r->Ok_0;
+    assert forall|i: int| 0 <= i < x.len() implies out@[i] == x[i] by {
+        assert(T::reads(v@[i], st) == Ok::<T, PdfError>(out@[i]));
+    }
+    assert(out@ =~= x);
+}
 }
 fn main(){}
